@@ -123,7 +123,15 @@ def _handle_redirect(
         result.target_stage_ref_id,
     )
 
-    # Atomic: store stage + mark processed + push JumpToStage + CompleteTask
+    # Record the redirect on the task in this commit instead of queueing a
+    # CompleteTask(REDIRECT) next to the JumpToStage. The jump itself resets or
+    # finalises the source stage's tasks; a separate CompleteTask had no effect
+    # when handled first-in-first-out, but when it was overtaken by the jump's
+    # StartStage/StartTask it hit the *re-armed* task of the next iteration,
+    # flipped it RUNNING -> REDIRECT and wedged the loop.
+    task_model.status = WorkflowStatus.REDIRECT
+
+    # Atomic: store stage + mark processed + push JumpToStage
     txn_helper.execute_atomic(
         stage=stage,
         source_message=message,
@@ -136,16 +144,6 @@ def _handle_redirect(
                     target_stage_ref_id=result.target_stage_ref_id,
                     jump_context=result.context or {},
                     jump_outputs=result.outputs or {},
-                ),
-                None,
-            ),
-            (
-                CompleteTask(
-                    execution_type=message.execution_type,
-                    execution_id=message.execution_id,
-                    stage_id=message.stage_id,
-                    task_id=message.task_id,
-                    status=result.status,
                 ),
                 None,
             ),
